@@ -1,6 +1,7 @@
 import PsV.Proofs.Lanes
 import PsV.Proofs.Bridge
 import PsV.Proofs.PolyDeriv
+import PsV.Proofs.PolyDerivK
 /-!
 # C02 — derivative and gradient evaluations (first part: structural facts)
 
@@ -99,6 +100,16 @@ theorem C02_formula_is_derivative (t : Int → β) (x : β) (left : Int) (n : Na
     (Polynomial.derivative (Pp t left (n+1) i)).eval x = DBp t x left n i := by
   refine ⟨eval_Pp t x left (n+1) i, ?_⟩
   rw [eval_derivative_Pp, dBp_eq_DBp t x left n i hmono]
+
+/-- **Arbitrary-order derivatives are the true derivatives**: the specification's `k`-fold knot-difference
+formula `Dind … k` of basis function `i` (all of whose knots are valid and non-decreasing) equals the
+evaluation of `Polynomial.derivative^[k]` of the polynomial piece the indicator selects. -/
+theorem C02_formula_is_iterated_derivative (t : Int → β) (x : β) (nknots : Nat) (l : Int) (ind : Int → Bool)
+    (hind : ∀ j : Int, 0 ≤ j → j ≤ (nknots:Int) - 2 → (ind j = true ↔ j = l))
+    (k n : Nat) (i : Int) (h0 : 0 ≤ i) (h1 : i + n + 1 ≤ (nknots:Int) - 1)
+    (hmono : ∀ a b : Int, i ≤ a → a ≤ b → b ≤ i + n + 1 → t a ≤ t b) :
+    Dind ind t x k n i = (Polynomial.derivative^[k] (Pp t l n i)).eval x := by
+  rw [Dind_eq_DkBp t x nknots l ind hind k n i h0 h1, iterate_derivative_Pp t x l k n i hmono]
 
 end field
 
